@@ -103,6 +103,7 @@ class Oracle:
         self.case = case
         self.total = case['total_size']
         self.viol = []              # (key, what)
+        self.step, self.first_bad = -1, None
         self.raw = []               # id -> raw bytes
         self.by_raw = {}            # raw -> [ids]
         self.file_of = {}           # id -> file name (us) where it was first seen on disk
@@ -111,13 +112,17 @@ class Oracle:
         self.readers = {'w': Reader(), 'r': Reader()}
         self.ext_deleted = False
         self.ext_deleted_names = set()
+        self.regressed = {}         # name -> created with a name below an earlier existing name
+        self.ever_max = None
         self.w_names = set()        # names the current writer instance has seen (scan at construction + created since)
         self.delivered_all = set()  # C14: by any incarnation of r
         self.saved_delivered = set()   # C14: delivered before the last successful save
         self.save_candidates = []   # C14: positions the head file may hold
 
     def flag(self, key, what):
-        if len(self.viol) < 20: self.viol.append((key, what))
+        # only the violations of the first failing op are reported: later ones are usually consequences
+        if self.first_bad is None: self.first_bad = self.step
+        if self.step == self.first_bad and (key, what) not in self.viol: self.viol.append((key, f'op {self.step}: {what}'))
 
     # --- directory
     def observe_dir(self, disk, wrote=None, us=None):
@@ -127,6 +132,15 @@ class Oracle:
         if us is not None and old:
             rel = ':equal-ts' if us == max(old) else ':backwards-ts' if us < max(old) else ''
         changed = []
+        for n in sorted(disk):
+            if n in self.regressed and n not in old:
+                self.regressed[n] = True        # the name of a deleted file used again
+            if n not in self.regressed:
+                # a file whose name sorts before (or equals) a name that existed earlier: only possible when the clock stepped back and the
+                # writer could not know the earlier name (pinned code: any backwards timestamp; fixed code: newest file deleted
+                # externally and writer restarted)
+                self.regressed[n] = self.ever_max is not None and n < self.ever_max
+                self.ever_max = n if self.ever_max is None else max(n, self.ever_max)
         for n, c in disk.items():
             if n in old:
                 if not c.startswith(old[n]):
@@ -195,18 +209,21 @@ class Oracle:
                 if i <= lo and rd.last is None:
                     self.flag('reader-behind-start', f'{who}: record {i} delivered, position was after {lo}')
                 sk = [j for j in range(lo + 1, i) if self.linked(j)]
-                if sk: self.flag('reader-skip-on-disk', f'{who}: records {sk[:5]} are on disk, unread, and were passed over (next delivered {i})')
+                if sk: self.flag('reader-skip-on-disk' + self.reg(sk), f'{who}: records {sk[:5]} are on disk, unread, and were passed over (next delivered {i})')
             if c14 and who == 'r':
                 if i in self.saved_delivered: self.flag('dup-before-save', f'record {i} delivered again although delivered before the last successful save')
                 self.delivered_all.add(i)
             rd.got.add(i); rd.last = i
+
+    def reg(self, ids):
+        return ':name-regressed' if all(self.regressed.get(self.file_of.get(j)) for j in ids) else ''
 
     def drained(self, who):
         rd = self.readers[who]
         lo = rd.last if rd.last is not None else rd.lower
         if lo is None: return
         left = [j for j in range(lo + 1, len(self.raw)) if self.linked(j)]
-        if left: self.flag('reader-undelivered-on-disk', f'{who}: records {left[:5]} on disk after the read position are never returned')
+        if left: self.flag('reader-undelivered-on-disk' + self.reg(left), f'{who}: records {left[:5]} on disk after the read position are never returned')
 
     def next_id(self, name, off):
         """id of the first record at/after byte offset `off` of file `name` (None if unknown)."""
@@ -365,7 +382,9 @@ class Runner:
 
     # --- C14
     def save_ok(self, pos):
-        self.orc.saved_delivered = set(self.orc.delivered_all)
+        # everything before the saved position counts as delivered before the save (it was, or its file is gone)
+        nid = self.orc.next_id(*pos)
+        self.orc.saved_delivered = set(range(nid)) & self.orc.delivered_all if nid is not None else set()
         self.orc.save_candidates = [pos]
 
     def restarted(self):
@@ -382,7 +401,7 @@ class Runner:
         orc.readers['r'].epoch(None if nid is None else nid - 1)
         if self.c14 and nid is not None:
             sk = [j for j in range(nid) if orc.linked(j) and j not in orc.delivered_all]
-            if sk: orc.flag('skipped-on-disk', f'restart position {pos} is past records {sk[:5]}, which are on disk and were never delivered')
+            if sk: orc.flag('skipped-on-disk' + orc.reg(sk), f'restart position {pos} is past records {sk[:5]}, which are on disk and were never delivered')
 
     def save(self, op, who, inst):
         crash = op.get('crash')
@@ -483,6 +502,7 @@ class Runner:
         return self
 
     def exec(self, op):
+        self.orc.step = len(self.steps)
         res, mop, wrote = self.do(op)
         disk = self.listing()
         self.names = {us_of_name(fn): fn for fn in os.listdir(self.dir) if us_of_name(fn) is not None}
@@ -524,10 +544,11 @@ def compare(runner, model):
 
 # ---------------------------------------------------------------------------------------------- generators
 
-def gen_write(rng, mode, st):
-    """st: {'ts': float, 'clk': float, 'n': next record id}"""
+def gen_write(rng, mode, st, monotone=False):
+    """st: {'ts': float, 'n': next record id}; monotone: strictly increasing microsecond timestamps only"""
     r = rng.random()
-    if r < 0.55: st['ts'] += rng.choice([1.0, 0.001, 0.000001, 2.5, 0.0000004])
+    if monotone: st['ts'] += rng.choice([1.0, 0.001, 0.000002, 2.5])
+    elif r < 0.55: st['ts'] += rng.choice([1.0, 0.001, 0.000001, 2.5, 0.0000004])
     elif r < 0.80: pass                                   # equal timestamp
     elif r < 0.92: st['ts'] -= rng.choice([0.5, 0.000001, 3.0, 0.001])   # wall clock stepped back
     else: st['ts'] += 100.0
